@@ -103,3 +103,42 @@ func scanFsWrites(r *run) {
 	addScanObl(r, "fs-writes", "no function other than transpileOne (via sys.WriteFile) writes, creates, renames or removes a file", len(bad) == 0, strings.Join(bad, "; "))
 	r.notes = append(r.notes, "callers of sys.WriteFile found by the scan: "+strings.Join(sysCallers, ", "))
 }
+
+// scanRootLetUsesResetOnly (C07): in parseRootLet the incoming parse state ps0 occurs exactly once, as
+// the argument of psResetTmpCtx in the first statement: everything the definition sees of the history
+// goes through the reset.
+func scanRootLetUsesResetOnly(r *run) {
+	ref := r.eng.FuncDecl["main.parseRootLet"]
+	if ref == nil {
+		addScanObl(r, "parseRootLet-uses-reset-only", "parseRootLet exists", false, "function not found")
+		return
+	}
+	// the incoming state is the last parameter
+	params := ref.Decl.Type.Params.List
+	var psName string
+	if len(params) > 0 && len(params[len(params)-1].Names) > 0 {
+		psName = params[len(params)-1].Names[0].Name
+	}
+	uses := 0
+	okFirst := false
+	if len(ref.Decl.Body.List) > 0 {
+		if as, ok := ref.Decl.Body.List[0].(*ast.AssignStmt); ok && len(as.Rhs) == 1 {
+			if call, ok := as.Rhs[0].(*ast.CallExpr); ok {
+				if id, ok := call.Fun.(*ast.Ident); ok && id.Name == "psResetTmpCtx" && len(call.Args) == 1 {
+					if a, ok := call.Args[0].(*ast.Ident); ok && a.Name == psName {
+						okFirst = true
+					}
+				}
+			}
+		}
+	}
+	ast.Inspect(ref.Decl.Body, func(n ast.Node) bool {
+		if id, ok := n.(*ast.Ident); ok && id.Name == psName {
+			if obj := ref.Pkg.TypesInfo.Uses[id]; obj != nil {
+				uses++
+			}
+		}
+		return true
+	})
+	addScanObl(r, "parseRootLet-uses-reset-only", "parseRootLet uses its incoming parse state only as the argument of psResetTmpCtx in its first statement", okFirst && uses == 1, fmt.Sprintf("first statement is the reset: %v; uses of %s: %d", okFirst, psName, uses))
+}
